@@ -1,7 +1,102 @@
 import Pko.Drv.PhaseCommon
+/-! Driver for C01 (collision protection).  `model` = the phase model; `monitor` evaluates the
+property's sentence on an IMPLEMENTATION trace, using only the scenario's initial store and
+the definition of "adoption permitted" (it does not call the model of the reconciler). -/
 namespace Pko.Drv.C01
-open Pko.Drv.PhaseCommon
-def monitor (_s : Scn) (_out : String) : String := "ok"
+open Pko.Kube Pko.Model.Phase Pko.Drv.PhaseCommon
+
+/-- "adoption permitted", written out again from the property text (Bool version). -/
+def permitted (st : Strategy) (ow : Owner) (force : Bool) (o : Obj) (prev : List Prev) (cp : CP) : Bool :=
+  let eff : CP := if force || o.pkgLabel == "package-operator" then .none else cp
+  decide (revNum o.rev ≤ ow.rev) &&
+  (eff == .none || (eff == .ifNoController && !hasController st o) ||
+   (controlledByPrevious st o prev && decide (revNum o.rev < ow.rev)))
+
+/-- between the brackets of `tag=[...]` in a printed object. -/
+def listField (objStr tag : String) : List String :=
+  match objStr.splitOn (tag ++ "=[") with
+  | _ :: rest :: _ =>
+    let inner := (rest.splitOn "]").headD ""
+    if inner.isEmpty then [] else inner.splitOn ","
+  | _ => []
+
+def scalarField (objStr tag : String) : String :=
+  match objStr.splitOn ("," ++ tag ++ "=") with
+  | _ :: rest :: _ => ((rest.splitOn ",").headD "").takeWhile (· ≠ '}') |>.toString
+  | _ => ""
+
+def monitor (s : Scn) (out : String) : String := Id.run do
+  if s.mode ≠ "reconcile" then return "ok"
+  if !(s.env.getD []).isEmpty then return "ok"     -- third-party races: judged by the trace diff + C05
+  let some io := parseOut out | return s!"bad unparsable-output {out.take 60}"
+  let cfg := cfgOf s
+  let ow := ownerOf s
+  let prev := prevOf s
+  let objs := objsOf s
+  let st0 := initStore s
+  let keys := objs.map (keyOf cfg ow)
+  if keys.eraseDups.length ≠ keys.length then return "ok"   -- duplicate listing: C11's business
+  -- 1. every write must be an apply on a listed key and be justified by the initial state
+  for e in io.events do
+    let ks := eventKey e
+    match objs.find? (fun p => keyStr (keyOf cfg ow p) == ks) with
+    | none => return s!"bad write-on-unlisted-key {e}"
+    | some p =>
+      if ow.paused then return s!"bad write-while-paused {e}"
+      if eventVerb e ≠ "A" then return s!"bad non-apply-write-in-rollout {e}"
+      match st0.get (keyOf cfg ow p) with
+      | none => pure ()
+      | some cur =>
+        let just := isController cfg.st (ow.ref true) cur ||
+          (cur.rev != .garbage && permitted cfg.st ow cfg.force cur prev p.cp)
+        if !just then return s!"bad unjustified-write {e}"
+  if ow.paused then return "ok"
+  -- 2. a pass that ran to completion: no refused object may have been passed over silently,
+  --    and every permitted adoption must have been carried out
+  if io.outcome.startsWith "ok:" then
+    for p in objs do
+      let k := keyOf cfg ow p
+      match st0.get k with
+      | none => pure ()
+      | some cur =>
+        if !isController cfg.st (ow.ref true) cur && cur.rev != .garbage then
+          if permitted cfg.st ow cfg.force cur prev p.cp then
+            if !(io.events.any fun e => eventVerb e == "A" && eventKey e == keyStr k) then
+              return s!"bad permitted-adoption-not-carried-out {keyStr k}"
+            match io.finals.find? (fun f => f.startsWith (keyStr k ++ "{")) with
+            | none => return s!"bad adopted-object-missing {keyStr k}"
+            | some f =>
+              let lst := listField f (match cfg.st with | .native => "o" | .annotation => "a")
+              let ctrls := lst.filter (·.endsWith ":1")
+              if ctrls ≠ [refStr (ow.ref true)] then
+                return s!"bad not-sole-controller-after-adoption {keyStr k} {ctrls}"
+              if scalarField f "r" ≠ toString ow.rev then
+                return s!"bad revision-not-recorded-after-adoption {keyStr k} r={scalarField f "r"}"
+          else if revNum cur.rev ≤ ow.rev then
+            return s!"bad refusal-not-reported {keyStr k}"
+  -- 2b. single-object phase: a permitted adoption of an admissible object must not end in an error
+  if io.outcome == "err" then
+    match objs with
+    | [p] =>
+      match st0.get (keyOf cfg ow p) with
+      | some cur =>
+        if !isController cfg.st (ow.ref true) cur && cur.rev != .garbage &&
+           permitted cfg.st ow cfg.force cur prev p.cp && cfg.scope p.kind == .namespaced &&
+           (ow.ns == "" || desiredNs ow p == ow.ns) && p.dryRun != .error then
+          return s!"bad permitted-adoption-failed {keyStr (keyOf cfg ow p)}"
+      | none => pure ()
+    | _ => pure ()
+  -- 3. a reported collision needs a refused object
+  if io.outcome.startsWith "collision" then
+    let refused := objs.any fun p =>
+      match st0.get (keyOf cfg ow p) with
+      | some cur => !isController cfg.st (ow.ref true) cur && cur.rev != .garbage &&
+                    decide (revNum cur.rev ≤ ow.rev) && !permitted cfg.st ow cfg.force cur prev p.cp
+      | none => false
+    if !refused then return "bad spurious-collision"
+  return "ok"
+
 end Pko.Drv.C01
+
 def main (args : List String) : IO UInt32 :=
   Pko.Util.driverMain Pko.Drv.PhaseCommon.Scn Pko.Drv.PhaseCommon.model Pko.Drv.C01.monitor args
